@@ -48,6 +48,15 @@ Definition ttag_ok hs order env s exp := pyres_eqb (option_eqb String.eqb) (to_c
 Definition ftag_ok hs order env tag exp := pyres_eqb (option_eqb Bool.eqb) (from_chiral_tag (isH_of hs) order env tag) exp.
 Definition tbs_ok center n m env s exp := pyres_eqb (option_eqb ref_eqb) (to_bond_stereo_sel center n m env s) exp.
 Definition fbs_ok hs e1 e2 nn nm label exp := pyres_eqb (option_eqb Bool.eqb) (from_bond_stereo (isH_of hs) e1 e2 nn nm label) exp.
+Definition nb_of (t : list (Z * list Z)) (k : Z) : list Z := match zget t k with Some l => l | None => nil end.
+Definition lab_eqb (p q : Z * option bool) : bool := (fst p =? fst q) && option_eqb Bool.eqb (snd p) (snd q).
+Definition ttags_ok hs th nums nb atoms exp :=
+  pyres_eqb (list_eqb (option_eqb String.eqb)) (to_tags (isH_of hs) th nums (nb_of nb) 0 atoms) exp.
+Definition ftags_ok hs th nb tags exp := pyres_eqb (list_eqb lab_eqb) (from_tags (isH_of hs) th (nb_of nb) 0 tags) exp.
+Definition blab_eqb (p q : Z * Z * option bool) : bool :=
+  let '(a, b, s) := p in let '(c, d, u) := q in (a =? c) && (b =? d) && option_eqb Bool.eqb s u.
+Definition tbl_ok centers ct bonds exp := pyres_eqb (list_eqb (option_eqb ref_eqb)) (to_bond_labels centers ct bonds) exp.
+Definition fbl_ok hs ct rbonds exp := pyres_eqb (list_eqb blab_eqb) (from_bond_labels (isH_of hs) ct rbonds) exp.
 Definition rbo_ok t exp := pyres_eqb Z.eqb (rdkit_bond_order t) exp.
 Definition bt_ok o exp := pyres_eqb String.eqb (bond_type o) exp.
 '''
@@ -365,6 +374,20 @@ def corr_to(cs, tag, m, keep=True):
                (tag, 'to-tag', t[0], env, t[9], name))
         ck.count('to-tag:' + ('none' if name == 'CHI_UNSPECIFIED' else 'written') + (':labelled' if t[9] is not None else ''))
         ck.case(('to-tag', tag, t[0]), nontrivial=t[9] is not None)
+    if labelled or cs.rng.random() < 0.1:
+        tags = ['None' if name == 'CHI_UNSPECIFIED' else f'(Some {cstr(name)})' for name, _ in pre['tags']]
+        cs.add_big(f'ttags_ok {lst(hs, zraw)} {lst(list(th.items()), lambda kv: tup(zraw(kv[0]), lst(kv[1], zraw)))} {lst(nums, zraw)} '
+                   f'{lst(list(enumerate(pre["tags"])), lambda kv: tup(zraw(kv[0]), lst(kv[1][1], zraw)))} '
+                   f'{lst([tup(zraw(t[0]), opt(t[9], b)) for t in snap["atoms"]])} (Ok {lst(tags)})', (tag, 'to-tags-whole-molecule'))
+        ck.count('to-tags-whole-molecule')
+    if labelled or cs.rng.random() < 0.1:
+        exps = []
+        for name, sa in pre['bst']:
+            exps.append('None' if name == 'STEREONONE' else f'(Some ({zraw(nums[sa[0]])}, {zraw(nums[sa[1]])}, {cstr(name)}))' if len(sa) == 2 else f'(Some (0, 0, {cstr(name)}))')
+        cs.add_big(f'tbl_ok {lst(list(centers.items()), lambda kv: tup(zraw(kv[0]), pair_term(kv[1])))} '
+                   f'{lst(list(ctreg.items()), lambda kv: tup(zraw(kv[0][0]), zraw(kv[0][1]), env_term(kv[1])))} '
+                   f'{lst([tup(zraw(x[0]), zraw(x[1]), opt(x[3], b)) for x in snap["bonds"]])} (Ok {lst(exps)})', (tag, 'to-bond-labels-whole-molecule'))
+        ck.count('to-bond-labels-whole-molecule')
     # double bond labels
     spare = 2
     for k, (n, mm, o, st) in enumerate(snap['bonds']):
@@ -439,6 +462,18 @@ def corr_from(cs, tag, rd):
                (tag, 'from-tag', n, env, name, stereo_of[n]))
         ck.count('from-tag:' + name.replace('CHI_', '').lower() + (':label' if stereo_of[n] is not None else ':no label'))
         ck.case(('from-tag', tag, n), nontrivial=stereo_of[n] is not None)
+    if tap.want_th or cs.rng.random() < 0.1:
+        cs.add_big(f'ftags_ok {lst(hs, zraw)} {lst(list(pre["th"].items()), lambda kv: tup(zraw(kv[0]), lst(kv[1], zraw)))} '
+                   f'{lst(list(enumerate(rsnap["tags"])), lambda kv: tup(zraw(kv[0]), lst(kv[1][1], zraw)))} {lst([cstr(name) for name, _ in rsnap["tags"]])} '
+                   f'(Ok {lst([tup(zraw(t[0]), opt(t[9], b)) for t in pre["atoms"]])})', (tag, 'from-tags-whole-molecule'))
+        ck.count('from-tags-whole-molecule')
+    if same_count and (tap.want_ct or cs.rng.random() < 0.1):
+        rb = [tup(zraw(bi), zraw(ei), cstr(name), zraw(sa[0] if len(sa) == 2 else 0), zraw(sa[1] if len(sa) == 2 else 0))
+              for (bi, ei, _), (name, sa) in zip(rsnap['bonds'], rsnap['bst'])]
+        ex = [tup(zraw(bi + 1), zraw(ei + 1), opt(by_pair[frozenset((bi + 1, ei + 1))][1], b)) for bi, ei, _ in rsnap['bonds']]
+        cs.add_big(f'fbl_ok {lst(hs, zraw)} {lst(list(pre["ct"].items()), lambda kv: tup(zraw(kv[0][0]), zraw(kv[0][1]), env_term(kv[1])))} '
+                   f'{lst(rb)} (Ok {lst(ex)})', (tag, 'from-bond-labels-whole-molecule'))
+        ck.count('from-bond-labels-whole-molecule')
     spare = 2
     for k, (name, sa) in enumerate(rsnap['bst']):
         bi, ei, _ = rsnap['bonds'][k]
